@@ -131,8 +131,12 @@ def _list_to_blackbird(values):
         elif isinstance(v, complex):
             items.append("{}{}{}j".format(v.real, "+-"[int(v.imag < 0)], np.abs(v.imag)))
         elif isinstance(v, sym.Expr):
-            # element contains free parameters
-            braces = {p: sym.Symbol("{" + str(p) + "}") for p in v.free_symbols}
+            # element contains free parameters (measured registers ``qN`` are written as they are)
+            braces = {
+                p: sym.Symbol("{" + str(p) + "}")
+                for p in v.free_symbols
+                if not (str(p)[0] == "q" and str(p)[1:].isdigit())
+            }
             items.append(_expr_to_blackbird(v.subs(braces)))
         else:
             items.append("{}".format(v))
